@@ -48,7 +48,16 @@ impl DefaultMetricLogReader {
         let mut last_sec = last_sec;
         loop {
             let mut line = String::new();
-            let count = buf_reader.read_line(&mut line)?;
+            let count = match buf_reader.read_line(&mut line) {
+                Ok(count) => count,
+                // a line that is not valid UTF-8 (cut inside a multi-byte character when the writer died)
+                // is skipped like any other unparsable line; the reader has already moved past it
+                Err(err) if err.kind() == std::io::ErrorKind::InvalidData => {
+                    logging::error!("DefaultMetricLogReader::read_metrics_in_one_file: skipped a line that is not valid UTF-8. Error: {:?}.", err);
+                    continue;
+                }
+                Err(err) => return Err(err.into()),
+            };
             if count == 0 {
                 let should_continue = (prev_size + items.len()) < max_lines;
                 return Ok((items, should_continue));
@@ -92,7 +101,15 @@ impl DefaultMetricLogReader {
         let lines = buf_reader.lines();
 
         for line in lines {
-            let line = line?;
+            let line = match line {
+                Ok(line) => line,
+                // see read_metrics_in_one_file: an invalid UTF-8 line is skipped, not an error of the search
+                Err(err) if err.kind() == std::io::ErrorKind::InvalidData => {
+                    logging::error!("Skipped a metric line that is not valid UTF-8: {:?}", err);
+                    continue;
+                }
+                Err(err) => return Err(err.into()),
+            };
             let item = match base::MetricItem::from_string(&line) {
                 Ok(item) => item,
                 Err(err) => {
